@@ -2,9 +2,13 @@
 C11 — Repeated queries reflect the current data; no stale results.
 
 Model: Gms/Model/QueryCache.lean (the executor's cache cells and who owns them) on top of the
-statement fragment and reference semantics of Gms/Model/Prepared.lean.
+statement fragment and reference semantics of Gms/Model/Prepared.lean; Gms/Model/TxSnapshot.lean (the
+session's per-transaction working copy of the data and the marks that decide when it is dropped);
+Gms/Model/TrigCache.lean (subquery cells inside a statement whose data changes while it runs: trigger bodies).
 -/
 import Gms.Model.QueryCache
+import Gms.Model.TxSnapshot
+import Gms.Model.TrigCache
 import Gms.Generated.C11
 open Gms.Sql Gms.QueryCache
 
@@ -102,6 +106,161 @@ theorem select_through_fresh_cell (st : Gms.Prepared.Stmt) (db : Gms.Prepared.Ta
   have := (iters_correct rs [none] {} (fresh_ok rs)).1
   rw [this]; rfl
 
+
+/-! ## The session's working copy of the data (Gms/Model/TxSnapshot.lean) -/
+
+section TxSnapshot
+open Gms.TxSnapshot
+
+/-- one operation: the Go bookkeeping (`tables` left behind by a finished transaction, the marks `txn` /
+`ignoreAutoCommit`, the reset at the *next* statement) yields the observation, the database and the
+session state the Spec prescribes -/
+theorem step_sim {σ ο} (db : σ) (s : Sess σ) (h : s.Inv) (op : Op σ ο) :
+    (stepImpl db s op).1 = (stepSpec db s.abs op).1 ∧ (stepImpl db s op).2.1 = (stepSpec db s.abs op).2.1 ∧
+    (stepImpl db s op).2.2.abs = (stepSpec db s.abs op).2.2 ∧ (stepImpl db s op).2.2.Inv := by
+  obtain ⟨tables, txn, ign, ac⟩ := s
+  obtain ⟨h1, h2⟩ := h
+  simp only at h1 h2
+  cases op with
+  | setAC b =>
+    cases b <;> cases txn <;> cases ign <;> cases ac <;> cases tables <;>
+      simp_all [stepImpl, stepSpec, Sess.abs, Sess.Inv, Sess.beginStmt, Sess.startTx, Sess.flush, Sess.endStmt, Tx.flush]
+  | _ =>
+    cases txn <;> cases ign <;> cases ac <;> cases tables <;>
+      simp_all [stepImpl, stepSpec, Sess.abs, Sess.Inv, Sess.beginStmt, Sess.startTx, Sess.view, Sess.flush, Sess.endStmt, Tx.flush]
+
+/-- **tx_snapshot_scoped**: for every history of statements and transaction control issued by any number of
+sessions, every statement observes what the Spec prescribes — in particular the working copy a finished
+transaction leaves in the session is never served again -/
+theorem tx_snapshot_scoped {σ ο} (hist : Hist σ ο) : ∀ (db : σ) (ss : Nat → Sess σ), (∀ j, (ss j).Inv) →
+    runImpl hist db ss = TxSnapshot.runSpec hist db (fun j => (ss j).abs) := by
+  induction hist with
+  | nil => intros; rfl
+  | cons x rest ih =>
+    intro db ss hinv
+    obtain ⟨i, op⟩ := x
+    obtain ⟨h1, h2, h3, h4⟩ := step_sim db (ss i) (hinv i) op
+    simp only [runImpl, TxSnapshot.runSpec, runWith] at ih ⊢
+    rw [h1, h2]
+    congr 1
+    rw [ih]
+    · congr 1
+      funext j
+      unfold upd
+      by_cases hj : j = i
+      · simp [hj, h3]
+      · simp [hj]
+    · intro j
+      unfold upd
+      by_cases hj : j = i
+      · simp [hj, h4]
+      · simp [hj, hinv j]
+
+/-- from new sessions -/
+theorem tx_snapshot_scoped_fresh {σ ο} (hist : Hist σ ο) (db : σ) :
+    runImpl hist db (fun _ => {}) = TxSnapshot.runSpec hist db (fun _ => {}) := by
+  rw [tx_snapshot_scoped hist db (fun _ => {}) (fun _ => by simp [Sess.Inv])]
+  rfl
+
+/-- how to read the Spec: a statement of a session that has no transaction open sees the current data,
+whatever that session did before -/
+theorem idle_statement_sees_current_data {σ ο} (db : σ) (f : σ → ο × σ) :
+    (stepSpec db { tx := .idle, autocommit := true } (.stmt f)).1 = some (f db).1 := rfl
+
+/-- … and COMMIT / ROLLBACK always lead there (under autocommit) -/
+theorem commit_rollback_end_the_transaction {σ ο} (db : σ) (s : SSess σ) :
+    (stepSpec (ο := ο) db s .commit).2.2.tx = .idle ∧ (stepSpec (ο := ο) db s .rollback).2.2.tx = .idle := ⟨rfl, rfl⟩
+
+/-- what the tie has to exclude: a COMMIT that leaves the transaction marks set (any early return in front of
+`SetTransaction(nil)`) makes the session serve its old working copy after another session's write -/
+theorem finding_shape_stale_if_commit_keeps_txn :
+    ∃ (hist : Hist (List Row) (List Row)) (db : List Row), runKeep hist db (fun _ => {}) ≠ TxSnapshot.runSpec hist db (fun _ => {}) :=
+  ⟨[(0, .start), (0, .stmt fun d => (d, d)), (0, .commit), (1, .stmt fun d => ([], [.int 2] :: d)), (0, .stmt fun d => (d, d))],
+   [[.int 1]], by decide⟩
+
+/-- non-vacuity: the same history through the model as built -/
+example : runImpl (σ := List Row) (ο := List Row)
+    [(0, .start), (0, .stmt fun d => (d, d)), (0, .commit), (1, .stmt fun d => ([], [.int 2] :: d)), (0, .stmt fun d => (d, d))]
+    [[.int 1]] (fun _ => {}) = [none, some [[.int 1]], none, some [], some [[.int 2], [.int 1]]] := by decide
+
+end TxSnapshot
+
+/-! ## Subquery cells of a trigger body (Gms/Model/TrigCache.lean) -/
+
+section TrigCache
+open Gms.TrigCache
+
+theorem eval_uncacheable (c : SubCell) (h : c.resultsCached = false) (now : List Value) : c.eval false now = (now, c) := by
+  simp [SubCell.eval, h]
+
+/-- no subquery of the body may be served from its cell -/
+def Uncacheable (vol : Bool) (b : Body) : Prop :=
+  (∀ q, b.setK = some q → cacheable vol q.correlated = false) ∧
+  (∀ t, b.mark = some t → (t.fills && cacheable vol t.correlated) = false)
+
+theorem execRow_current (vol : Bool) (b : Body) (hb : Uncacheable vol b) (cs : Cells)
+    (h1 : cs.c1.resultsCached = false) (h2 : cs.c2.resultsCached = false) (log : Log) (r : NewRow) :
+    execRow vol b cs log r = ((specRow b log r).1, (specRow b log r).2, cs) := by
+  obtain ⟨c1, c2⟩ := cs
+  obtain ⟨sk, mk, lg⟩ := b
+  obtain ⟨hq, ht⟩ := hb
+  simp only at h1 h2 hq ht
+  cases sk with
+  | none =>
+    cases mk with
+    | none => simp [execRow, specRow]
+    | some t =>
+      have := ht t rfl
+      simp [execRow, specRow, this, eval_uncacheable c2 h2]
+  | some q =>
+    have hq' := hq q rfl
+    cases mk with
+    | none => simp [execRow, specRow, hq', eval_uncacheable c1 h1]
+    | some t =>
+      have := ht t rfl
+      simp [execRow, specRow, hq', this, eval_uncacheable c1 h1, eval_uncacheable c2 h2]
+
+/-- a statement none of whose body subqueries is cacheable evaluates every one of them on the data as it is
+when the body runs, for every row the statement touches -/
+theorem execRows_current (vol : Bool) (b : Body) (hb : Uncacheable vol b) (rows : List NewRow) :
+    ∀ (cs : Cells) (log : Log), cs.c1.resultsCached = false → cs.c2.resultsCached = false →
+      execRows vol b cs log rows = specRows b log rows := by
+  induction rows with
+  | nil => intros; rfl
+  | cons r rest ih =>
+    intro cs log h1 h2
+    simp only [execRows, specRows, execRow_current vol b hb cs h1 h2 log r]
+    rw [ih cs _ h1 h2]
+
+theorem marked_uncacheable (b : Body) : Uncacheable true b := by
+  constructor <;> intros <;> simp [cacheable]
+
+/-- **trigger_rows_current**: with the mark the plan builder puts on the subqueries of a trigger body, a
+multi-row statement gives every row the subquery results of the data current at that row -/
+theorem trigger_rows_current (b : Body) (log : Log) (rows : List NewRow) : implStmt b log rows = specRows b log rows :=
+  execRows_current true b (marked_uncacheable b) rows {} log rfl rfl
+
+/-- correlated subqueries are safe without the mark (the control shapes of the generator) -/
+theorem correlated_rows_current (b : Body) (hq : ∀ q, b.setK = some q → q.correlated = true)
+    (ht : ∀ t, b.mark = some t → t.correlated = true) (log : Log) (rows : List NewRow) :
+    implStmtUnmarked b log rows = specRows b log rows :=
+  execRows_current false b ⟨fun q h => by simp [cacheable, hq q h], fun t h => by simp [cacheable, ht t h]⟩ rows {} log rfl rfl
+
+/-- non-vacuity: a body all of whose subqueries mention the row -/
+example : implStmtUnmarked { setK := some { agg := .count, below := some .newId }, mark := some (.existsEq .newK), logs := .newK } [0]
+    [{ id := 1, k := 5 }, { id := 2, k := 5 }] = ([{ id := 1, k := 1 }, { id := 2, k := 2 }], [0, 1, 2]) := by decide
+
+/-- what the tie has to exclude: if the mark is lost on the way to execution, rows 2..n of a statement get the
+subquery result computed for row 1 -/
+theorem finding_shape_trigger_cache_unmarked :
+    ∃ (b : Body) (log : Log) (rows : List NewRow), implStmtUnmarked b log rows ≠ specRows b log rows :=
+  ⟨{ setK := some { agg := .max }, logs := .newId }, [1, 2], [{ id := 3, k := -1 }, { id := 4, k := -1 }, { id := 5, k := -1 }], by decide⟩
+
+example : implStmt { setK := some { agg := .max }, mark := some (.inLog .newK), logs := .newId } [1, 2]
+    [{ id := 3, k := -1 }, { id := 4, k := -1 }] = ([{ id := 3, k := 2, seen := true }, { id := 4, k := 3, seen := true }], [1, 2, 3, 4]) := by decide
+
+end TrigCache
+
 /-- regenerated on every run (go/ast): the cell of `plan.CachedResults` is exactly (`cachedResults`,
 `finalized`); `buildCachedResults` serves from the cell iff `IsFinalized()` and otherwise builds the
 child; the iterator saves into the node only under `err != nil` ∧ `err == io.EOF`; `WithChildren`
@@ -125,6 +284,50 @@ theorem facts_match :
     Gms.Generated.C11.newCachedResultsSites = ["sql/analyzer/resolve_subqueries.go:1"] ∧
     Gms.Generated.C11.queryPlansAfresh = true ∧
     Gms.Generated.C11.sessionPrepareQueryParamTypes = ["string", "sqlparser.Statement"] := by
+  decide
+
+/-- regenerated on every run (go/ast) — the transaction marks of Gms/Model/TxSnapshot.lean: COMMIT and ROLLBACK
+reach `SetIgnoreAutoCommit(false); SetTransaction(nil)` unless the session has no transaction (`Sess.beginStmt`
+excludes that) or the backend call failed; START TRANSACTION commits what is pending, starts a transaction and
+sets both marks; every statement begins a transaction iff there is none; after a statement the transaction is
+committed and cleared unless it is explicit or `autocommit = 0`; `memory.Session.tables` is reset by
+`StartTransaction` and `Rollback` only (a commit leaves it behind) and `tableData` reads the database only for
+a table that is not in it. -/
+theorem facts_match_tx :
+    Gms.Generated.C11.commitReturnsEarlyWhen = ["!ok", "transaction == nil", "err != nil"] ∧
+    Gms.Generated.C11.commitCalls = ["ts.CommitTransaction(ctx, transaction)", "ctx.SetIgnoreAutoCommit(false)", "ctx.SetTransaction(nil)"] ∧
+    Gms.Generated.C11.rollbackReturnsEarlyWhen = ["!ok", "transaction == nil", "err != nil"] ∧
+    Gms.Generated.C11.rollbackCalls = ["ts.Rollback(ctx, transaction)", "ctx.SetIgnoreAutoCommit(false)", "ctx.SetTransaction(nil)"] ∧
+    Gms.Generated.C11.startTransactionReturnsEarlyWhen = ["!ok", "err != nil"] ∧
+    Gms.Generated.C11.startTransactionCalls = ["ts.CommitTransaction(ctx, currentTx)", "ts.StartTransaction(ctx, n.TransChar)",
+      "ctx.SetTransaction(transaction)", "ctx.SetIgnoreAutoCommit(true)"] ∧
+    Gms.Generated.C11.startTransactionCommitsPendingWhen = ["currentTx != nil"] ∧
+    Gms.Generated.C11.beginTransactionSkipsWhen = ["ctx.GetTransaction() != nil", "nested:ok"] ∧
+    Gms.Generated.C11.beginTransactionCalls = ["ts.StartTransaction(ctx, sql.ReadWrite)", "ctx.SetTransaction(tx)"] ∧
+    Gms.Generated.C11.beginTransactionCalledBy = ["QueryWithBindings", "PrepQueryPlanForExecution", "PrepareParsedQuery"] ∧
+    Gms.Generated.C11.closeSkipsCommitWhen = ["err != nil", "tx == nil", "!t.implicitCommit && ctx.GetIgnoreAutoCommit()",
+      "!t.implicitCommit && !t.autoCommit", "!ok"] ∧
+    Gms.Generated.C11.closeCalls = ["ts.CommitTransaction(ctx, tx)", "ctx.SetTransaction(nil)"] ∧
+    Gms.Generated.C11.sessionTablesFilledBy = ["putTable", "tableData"] ∧
+    Gms.Generated.C11.sessionTablesResetBy = ["Rollback", "StartTransaction"] ∧
+    Gms.Generated.C11.tableDataReadsDatabaseWhen = ["!ok"] := by
+  decide
+
+/-- regenerated on every run — the "do not cache" mark of Gms/Model/TrigCache.lean: the plan builder marks every
+subquery built inside a trigger body, the `With*` rebuilders of `plan.Subquery` start from a copy of the node,
+and (dumped by analyzing probe statements with the code under test) the `cacheable` flag of every subquery that
+reaches execution is the model's `cacheable volatile correlated`: true for an uncorrelated subquery of a plain
+SELECT, false for a correlated one and false for every subquery of a BEFORE INSERT / UPDATE trigger body. -/
+theorem facts_match_subquery_mark :
+    Gms.Generated.C11.triggerBodySubqueriesMarkedVolatile = true ∧
+    Gms.Generated.C11.subqueryWithMethods = ["WithChildren:self", "WithCorrelated:copy", "WithExecBuilder:copy",
+      "WithNodeChildren:other", "WithQuery:copy", "WithVolatile:copy"] ∧
+    Gms.Generated.C11.subqueryCacheFlags =
+      [("select-uncorrelated", [Gms.TrigCache.cacheable false false]),
+       ("select-correlated", [Gms.TrigCache.cacheable false true]),
+       ("trigger-insert", [Gms.TrigCache.cacheable true false, Gms.TrigCache.cacheable true false]),
+       ("trigger-insert-select", [Gms.TrigCache.cacheable true false, Gms.TrigCache.cacheable true false]),
+       ("trigger-update", [Gms.TrigCache.cacheable true false, Gms.TrigCache.cacheable true false])] := by
   decide
 
 end Gms.C11
